@@ -15,6 +15,7 @@ Tests are in a separate module.
 import warnings
 import functools
 import math
+import operator
 
 import numpy as np
 import numpy.testing
@@ -125,7 +126,8 @@ def basecase(fn_zeroth_deriv, domain=DOM_ALL, extras=0):
     def wrap(f):
         def wrapped_f(*args, **kwargs):
             out = kwargs.pop('out', None)
-            n = kwargs.pop('n', 0)
+            # a python int: with an unsigned NumPy integer, expressions like -n or n-1 wrap around
+            n = operator.index(kwargs.pop('n', 0))
             if kwargs:
                 raise ValueError('unexpected keyword args: %s' % kwargs)
             if n < 0:
